@@ -6,6 +6,7 @@ import Gowarc.Driver.RecordH
 import Gowarc.Driver.BlockH
 import Gowarc.Driver.RevisitH
 import Gowarc.Driver.WriterH
+import Gowarc.Driver.CutsH
 namespace Gowarc.Driver
 
 def handleLine (line : String) : String :=
@@ -31,6 +32,7 @@ def handleLine (line : String) : String :=
       | "revisit" => handleRevisit args
       | "xpolb" => handleXpolBuild args
       | "writer" => handleWriter args
+      | "cuts" => handleCuts args
       | _ => "unknown-kind"
     id ++ " " ++ out
   | _ => "? bad-line"
